@@ -114,8 +114,19 @@ pub mod checks {
     // ---------------------------------------------------------------- end to end: js_path_process vs rfc_query
     pub fn show(q: &JpQuery) -> String { format!("{:?}", q) }
 
+    // ---- termination watchdog: the evaluation in progress is published; main.rs reports it if it runs too long ----
+    pub static CUR: std::sync::Mutex<Option<(String, String, std::time::Instant)>> = std::sync::Mutex::new(None);
+    pub fn watch(group: &str, what: impl FnOnce() -> String) {
+        static N: std::sync::atomic::AtomicU64 = std::sync::atomic::AtomicU64::new(0);
+        // publishing every evaluation would dominate the run time of the large groups: every 64th is enough to bound a hang
+        let n = N.fetch_add(1, std::sync::atomic::Ordering::Relaxed);
+        if group == "arith" || group == "text_arith" || n % 64 == 0 { *CUR.lock().unwrap() = Some((group.to_string(), what(), std::time::Instant::now())); }
+    }
+    pub fn unwatch() { *CUR.lock().unwrap() = None; }
+
     pub fn e2e_one<T: Queryable>(q: &JpQuery, doc: &T, docv: &Value, rep: &mut Report, tag: &str, ids: (usize, usize)) -> Option<Vec<(usize, String)>> {
         rep.evaluations += 1;
+        watch(&rep.group, || format!("query {} on {}", show(q), docv));
         let mut union_multi = false;
         let want = { let c = Ctx::new(doc); let r = c.query(q); union_multi = c.union_multi.get(); r };
         let got = catch_unwind(AssertUnwindSafe(|| js_path_process(q, doc)));
@@ -159,7 +170,11 @@ pub mod checks {
         for s in &segs { out.push(JpQuery::new(vec![s.clone()])); }
         // two segments: every first segment from a structural core x every second segment
         let core: Vec<Segment> = segs.iter().filter(|s| !matches!(s, Segment::Selector(Selector::Filter(_)))).cloned().collect();
-        for a in &core { for b in &segs { out.push(JpQuery::new(vec![a.clone(), b.clone()])); } }
+        // quick: every second first-segment (rotating with the seed); thorough: all
+        for (ai, a) in core.iter().enumerate() {
+            if !thorough && (ai as u64 + seed) % 2 != 0 { continue; }
+            for b in &segs { out.push(JpQuery::new(vec![a.clone(), b.clone()])); }
+        }
         let n3 = if thorough { 6000 } else { 600 };
         for _ in 0..n3 {
             out.push(JpQuery::new(vec![segs[rng.below(segs.len())].clone(), segs[rng.below(segs.len())].clone(), segs[rng.below(segs.len())].clone()]));
@@ -172,8 +187,8 @@ pub mod checks {
         let mut rng = Rng(seed.wrapping_mul(0x2545F4914F6CDD1D) | 1);
         let fs: Vec<Filter> = match subset {
             // function atoms only (count / length / value / match / search), plain and negated
-            "e2e_fn" => { let a = atoms(); let mut v: Vec<Filter> = a[23..].to_vec();
-                          v.extend(a[23..].iter().map(|f| Filter::Atom(FilterAtom::Filter { expr: Box::new(f.clone()), not: true }))); v }
+            "e2e_fn" => { let a = atoms(); let mut v: Vec<Filter> = a[24..].to_vec();
+                          v.extend(a[24..].iter().map(|f| Filter::Atom(FilterAtom::Filter { expr: Box::new(f.clone()), not: true }))); v }
             _ => filters(&mut rng, if tier == "thorough" { 400 } else { 120 }),
         };
         let w = Segment::Selector(Selector::Wildcard);
@@ -192,11 +207,11 @@ pub mod checks {
         let ds = docs(if tier == "thorough" { 400 } else { 60 }, seed);
         let qs = if name == "e2e" { queries(tier, seed) } else { queries_subset(name, tier, seed) };
         // quick: every query on a rotating sample of documents; thorough: every pair
-        let stride = if tier == "thorough" { 1 } else { 7 };
+        let stride = if tier == "thorough" { 1 } else { 13 };
         for (qi, q) in qs.iter().enumerate() {
             for (di, d) in ds.iter().enumerate() {
                 if let Some((a, b)) = only { if (qi, di) != (a, b) { continue; } }
-                else if (qi + di) % stride != 0 && di >= 20 { continue; }
+                else if (qi + di) % stride != 0 && di >= always() { continue; }
                 let r1 = e2e_one(q, d, d, &mut rep, "serde_json::Value", (qi, di));
                 // C15: the same query over a second Queryable implementation of the same document
                 let j = from_value(d);
@@ -263,8 +278,9 @@ pub mod checks {
         for (qi, q) in qs.iter().enumerate() {
             let text = print::query(q);
             for (di, d) in ds.iter().enumerate() {
-                if let Some((a, b)) = only { if (qi, di) != (a, b) { continue; } } else if (qi + di) % stride != 0 && di >= 12 { continue; }
+                if let Some((a, b)) = only { if (qi, di) != (a, b) { continue; } } else if (qi + di) % stride != 0 && di >= always() { continue; }
                 rep.evaluations += 1;
+                watch(name, || format!("js_path({:?}) on {}", text, d));
                 let c = Ctx::new(d);
                 let want: Vec<(usize, String)> = c.query(q).into_iter().map(|n| (n.v as *const Value as usize, n.path)).collect();
                 let mut feats = features(&q.segments, d);
@@ -285,6 +301,16 @@ pub mod checks {
                         else if !same { rep.fail(&format!("{}.order", name), &feats, w(det)); }
                         if rep.samples.len() < 4 && !want.is_empty() && rep.evaluations % 211 == 1 { rep.samples.push(json!({"text": text, "doc": d, "result": want.iter().map(|x| &x.1).collect::<Vec<_>>()})); }
                     }
+                }
+            }
+        }
+        if name == "text_arith" {
+            let d = json!([0, 1, 2]);
+            for t in ["$[-9223372036854775808]", "$[9223372036854775807]", "$[-9223372036854775808:]", "$[:-9223372036854775808]", "$[::-9223372036854775808]",
+                      "$[?@[-9223372036854775808] == 1]", "$[9007199254740992]", "$[-9007199254740992]", "$[99999999999999999999]", "$[?@ == 9223372036854775807]", "$[?@ == -9223372036854775808]"] {
+                rep.evaluations += 1;
+                if catch_unwind(AssertUnwindSafe(|| js_path(t, &d).is_ok())).is_err() {
+                    rep.fail("text_arith.no_panic", &[], json!({"text": t, "doc": d, "detail": "panic"}));
                 }
             }
         }
@@ -536,6 +562,7 @@ pub mod checks {
             }
             for s in &opts { for e in &opts { for st in &opts {
                 rep.evaluations += 1;
+                watch("arith", || format!("process_slice(len={}, start={:?}, end={:?}, step={:?})", len, s, e, st));
                 let want: Vec<usize> = rfc_slice(len as i128, *s, *e, *st).iter().map(|k| &arr[*k as usize] as *const Value as usize).collect();
                 let got = catch_unwind(AssertUnwindSafe(|| ptr_seq(crate::query::selector::verif_x::process_slice(Pointer::new(&doc, "$".to_string()), s, e, st)).iter().map(|x| x.0).collect::<Vec<usize>>()));
                 if !want.is_empty() { rep.nontrivial += 1; }
